@@ -167,6 +167,74 @@ def run_chunk(args):
     return cases, failures
 
 
+def run_renames(args):
+    """rename / copy / rewrite detection over blobs of graded similarity: every detector configuration must return a set of
+    changes that (1) turns the first listing into the second and (2) gives every path of the first listing at most one
+    fate (copies do not consume their source) and every path of the second at most one origin"""
+    lo, hi, stride = args
+    _setup()
+    from dulwich import diff_tree as D
+    from dulwich.index import commit_tree
+    from dulwich.object_store import MemoryObjectStore
+    from dulwich.objects import Blob
+    store = MemoryObjectStore()
+    lines = [b"line %03d of the original file\n" % i for i in range(100)]
+    X = Blob.from_string(b"".join(lines))
+    X75 = Blob.from_string(b"".join(lines[:75]) + b"".join(b"changed %03d in the edited copy..\n" % i for i in range(25)))
+    X40 = Blob.from_string(b"".join(lines[:40]) + b"".join(b"changed %03d in the edited copy..\n" % i for i in range(60)))
+    Y = Blob.from_string(b"".join(b"something else entirely %03d\n" % i for i in range(100)))
+    T = Blob.from_string(b"target")
+    for b in (X, X75, X40, Y, T):
+        store.add_object(b)
+    names = {X.id: "X", X75.id: "X75", X40.id: "X40", Y.id: "Y", T.id: "T"}
+    kinds = [None, (0o100644, X.id), (0o100644, X75.id), (0o100644, X40.id), (0o100644, Y.id), (0o100644, T.id), (0o120000, T.id), (0o100755, X.id)]
+    paths = [b"a", b"m", b"z"]
+    Ls = [{p: k for p, k in zip(paths, ks) if k is not None} for ks in itertools.product(kinds, repeat=3)]
+    tids = [commit_tree(store, [(p, sha, m) for p, (m, sha) in L.items()]) for L in Ls]
+    configs = [("default", {}), ("rewrite_threshold=50", {"rewrite_threshold": 50}), ("rewrite_threshold=90", {"rewrite_threshold": 90}),
+               ("find_copies_harder", {"find_copies_harder": True}), ("rename_threshold=30, rewrite_threshold=80", {"rename_threshold": 30, "rewrite_threshold": 80})]
+    failures = []
+    cases = 0
+
+    def fail(what, detail):
+        if len(failures) < 6 and sum(1 for f in failures if f["what"] == what) < 2:
+            failures.append({"what": what, "detail": detail})
+
+    def show(L):
+        return {p.decode(): [oct(m), names[s_]] for p, (m, s_) in sorted(L.items())}
+    for i in range(lo, hi):
+        for j in range(len(Ls)):
+            if (i * 11 + j) % stride or i == j:
+                continue
+            L1, L2 = Ls[i], Ls[j]
+            for cname, kw in configs:
+                cases += 1
+                try:
+                    rch = D.RenameDetector(store, **kw).changes_with_renames(tids[i], tids[j])
+                    got = dict(L1)
+                    consumed, produced = [], []
+                    for c in rch:
+                        if c.old is not None and L1.get(c.old.path) != (c.old.mode, c.old.sha):
+                            fail("rename detection names an old entry that is not in the first tree", {"l1": show(L1), "l2": show(L2), "detector": cname, "change": repr(c)[:200]})
+                        if c.old is not None and c.type != D.CHANGE_COPY and c.type != D.CHANGE_UNCHANGED:
+                            consumed.append(c.old.path)
+                        if c.new is not None and c.type != D.CHANGE_UNCHANGED:
+                            produced.append(c.new.path)
+                    for p_ in consumed:
+                        got.pop(p_, None)
+                    for c in rch:
+                        if c.new is not None:
+                            got[c.new.path] = (c.new.mode, c.new.sha)
+                    desc = [(c.type, c.old.path.decode() if c.old else None, c.new.path.decode() if c.new else None) for c in rch]
+                    if got != L2:
+                        fail("changes_with_renames applied to the first listing does not give the second", {"l1": show(L1), "l2": show(L2), "detector": cname, "changes": desc, "result": show(got)})
+                    if len(set(consumed)) != len(consumed) or len(set(produced)) != len(produced):
+                        fail("changes_with_renames gives one path two fates / two origins", {"l1": show(L1), "l2": show(L2), "detector": cname, "changes": desc})
+                except Exception as e:  # noqa: BLE001
+                    fail("rename detection raised", {"l1": show(L1), "l2": show(L2), "detector": cname, "exc": repr(e)[:300]})
+    return cases, failures
+
+
 def git_cross_check(k, fail):
     """dulwich trees written to a disk repository, compared with git ls-tree -r and git diff-tree -r --raw"""
     _setup()
@@ -229,8 +297,10 @@ def main():
     jobs = [(k, n * c // 64, n * (c + 1) // 64, step) for c in range(64)]
     cases = 0
     failures = []
+    rstride = 16 if tier == "quick" else 2
+    rjobs = [(512 * c // 32, 512 * (c + 1) // 32, rstride) for c in range(32)]
     with ProcessPoolExecutor(max_workers=min(16, os.cpu_count() or 1)) as ex:
-        for c, f in ex.map(run_chunk, jobs):
+        for c, f in itertools.chain(ex.map(run_chunk, jobs), ex.map(run_renames, rjobs)):
             cases += c
             for x in f:
                 if len(failures) < 10 and sum(1 for y in failures if y["what"] == x["what"]) < 2:
@@ -243,7 +313,8 @@ def main():
     print(json.dumps({"name": "c12_trees", "function": "dulwich/index.py commit_tree, object_store.py iter_tree_contents/commit_tree_changes, diff_tree.py tree_changes/RenameDetector",
                       "cases": cases, "exhaustive": True,
                       "bound": f"all {n} listings with <= {k} entries over 9 paths (file/directory conflicts, '/'-order traps) x 5 entry kinds; "
-                      + ("every 32nd ordered pair of listings" if tier == "quick" else "all ordered pairs of listings; git 2.39 ls-tree / diff-tree cross-check on a sample"),
+                      + ("every 32nd ordered pair of listings" if tier == "quick" else "all ordered pairs of listings; git 2.39 ls-tree / diff-tree cross-check on a sample")
+                      + f"; rename/copy/rewrite detection: every {rstride}th ordered pair of the 512 listings of 3 paths x 8 entry kinds (blobs of graded similarity 100/75/40/0 %, symlink, executable) x 5 detector configurations",
                       "failures": failures, "secs": round(time.time() - t0, 2)}))
 
 
